@@ -229,8 +229,8 @@ theorem tryNormalize_eq {α : Type} [Arith α] (d : List (DomVar α)) (lhs : Exp
           match cmpHolds Arith.zero cmp c, cmpHolds Arith.one cmp c with
           | false, true => some (.assertion e true)
           | true, false => some (.assertion e false)
-          | true, true => some .tautology
-          | false, false => some .contradiction := by
+          | true, true => if Exp.mayBeUndefined e then none else some .tautology
+          | false, false => if Exp.mayBeUndefined e then none else some .contradiction := by
   rfl
 
 theorem pickOf_spec {d : List (DomVar (Ext K))} {lhs rhs : Exp (Ext K)} {cmp cmp' : Cmp} {e : Exp (Ext K)} {c : Ext K}
@@ -313,7 +313,7 @@ theorem normalize_sem {d : List (DomVar (Ext K))} {S : String → Prop} {lhs rhs
       by_cases hc : cmpK cmp' x k = true
       · simp [hc] at h; subst h; simp only [NormSem, hcmp, hc]
       · simp [hc] at h; subst h; simp only [NormSem, hcmp]; simpa using hc
-    · simp only [hp, ar_zero, ar_one, cmpHolds_fin] at h
+    · simp only [hp, ar_zero, ar_one, cmpHolds_fin, Exp.mayBeUndefined, Bool.false_eq_true, if_false] at h
       rw [eval_var] at hx
       simp only [Option.some.injEq] at hx
       have h01 := hB n hs hbn
